@@ -31,6 +31,8 @@ struct CmdSpec {
   std::map<std::string, std::vector<std::string>> per_out;  // po=<hex of a:s,t;b:u>: output -> the reads its content depends on
   std::map<std::string, std::string> dspell;
   bool dall = false;
+  // gcc -MP: every header once more as a target without dependencies, spelled canonically (dmp=1)
+  bool dmp = false;
   std::string Spelled(const std::string& n) const { auto i = dspell.find(n); return i == dspell.end() ? n : i->second; }
   std::string id() const { return outs.empty() ? line : outs[0]; }
 };
